@@ -82,6 +82,10 @@ func (p *stubServiceDirectory) OnTerminate() {
 	p.impl.OnTerminate()
 }
 func (p *stubServiceDirectory) Receive(msg *net.Message, from bus.Channel) error {
+	// only call and post messages run a method
+	if msg.Header.Type != net.Call && msg.Header.Type != net.Post {
+		return nil
+	}
 	// action dispatch
 	switch msg.Header.Action {
 	case 100:
